@@ -21,6 +21,7 @@ import (
 	"github.com/pion/dtls/v3/pkg/crypto/clientcertificate"
 	"github.com/pion/dtls/v3/pkg/protocol"
 	"github.com/pion/dtls/v3/pkg/protocol/alert"
+	"github.com/pion/dtls/v3/pkg/protocol/handshake"
 	"github.com/pion/dtls/v3/pkg/protocol/recordlayer"
 )
 
@@ -244,4 +245,69 @@ func zzRxCleartextAppDataNotDelivered() {
 	zzsymAssert(herr != nil, "cleartext_application_data_is_an_error")
 	zzsymAssert(outcome.responseAlert != nil && outcome.responseAlert.Level == alert.Fatal, "cleartext_application_data_fatal_alert")
 	zzsymCover("cleartext_appdata_refused")
+}
+
+// DTLS 1.2 Finished on the wire: Conn.writePackets on the final flight as the generators hand it over
+// (finished12.go proves the flags) - a cleartext ChangeCipherSpec in epoch 0 followed by a handshake Finished with 12
+// arbitrary verify_data bytes marked ShouldEncrypt in epoch 1, with and without a negotiated connection ID, MTU
+// 1200 or a small one that forces fragmentation of the Finished. Proved: everything written after the 14-byte
+// ChangeCipherSpec record is byte-for-byte cipher output (the concatenation of what CipherSuite.Encrypt
+// returned, in order), every Encrypt call was made for epoch 1, and verify_data reached only the cipher. If the
+// packet were NOT marked ShouldEncrypt the Finished would leave as a plaintext record - the entry shows that
+// too (label unmarked_finished_would_be_clear), which is why the generators' flag is the thing to prove.
+//
+//symgo:entry covers=finished_plain_header,finished_cid_header,finished_fragmented,unmarked_finished_would_be_clear
+func zzTxFinished12() {
+	suite, nw := &zzTxSuite{}, &zzTxNet{}
+	c := zzTxConn(suite, nw)
+	common := dtlsstate.CommonState(c.state)
+	common.SetLocalEpoch(1)
+	if zzsymChoice("cid", 2) == 1 {
+		common.RemoteConnectionID = zzsymBytes("rcid", 2)
+		zzsymCover("finished_cid_header")
+	} else {
+		zzsymCover("finished_plain_header")
+	}
+	small := zzsymChoice("small_mtu", 2) == 1
+	if small {
+		c.maximumTransmissionUnit = 5
+	}
+	marked := zzsymChoice("marked", 2) == 1
+	vd := zzsymBytes("verify_data", 12)
+	pkts := []*dtlsflight.Packet{
+		{Record: &recordlayer.RecordLayer{
+			Header:  recordlayer.Header{Version: protocol.Version1_2},
+			Content: &protocol.ChangeCipherSpec{},
+		}},
+		{Record: &recordlayer.RecordLayer{
+			Header:  recordlayer.Header{Version: protocol.Version1_2, Epoch: 1},
+			Content: &handshake.Handshake{Message: &handshake.MessageFinished{VerifyData: vd}},
+		}, ShouldEncrypt: marked, ResetLocalSequenceNumber: true},
+	}
+	err := c.writePackets(context.Background(), pkts)
+	zzsymAssert(err == nil, "final_flight_written")
+	var wire []byte
+	for _, d := range nw.written {
+		wire = append(wire, d...)
+	}
+	zzsymAssert(len(wire) >= 14 && wire[0] == byte(protocol.ContentTypeChangeCipherSpec) && wire[3] == 0 && wire[4] == 0,
+		"change_cipher_spec_first_in_epoch0")
+	rest := wire[14:]
+	if !marked {
+		// what the flag protects against: the record would be a plaintext handshake record
+		zzsymAssert(len(suite.outputs) == 0 && len(rest) > 13 && rest[0] == byte(protocol.ContentTypeHandshake), "harness_unmarked_is_plaintext")
+		zzsymCover("unmarked_finished_would_be_clear")
+
+		return
+	}
+	var ct []byte
+	for i, o := range suite.outputs {
+		ct = append(ct, o...)
+		zzsymAssert(suite.epochs[i] == 1, "finished_encrypted_under_epoch1")
+	}
+	zzsymAssert(len(suite.outputs) >= 1, "finished_went_through_the_cipher")
+	zzsymAssert(zzsymEqBytes(rest, ct), "finished_leaves_only_as_cipher_output")
+	if len(suite.outputs) > 1 {
+		zzsymCover("finished_fragmented")
+	}
 }
